@@ -28,6 +28,8 @@ func TestMain(m *testing.M) { harness.Main(m, "C11") }
 
 type Case struct {
 	Bytes ops.Hex `json:"bytes"`
+	// Concurrent: the listing is also asked for while another goroutine disassembles another graphic.
+	Concurrent bool `json:"concurrent,omitempty"`
 }
 
 type line struct {
@@ -256,6 +258,33 @@ func checkListing(c Case) error {
 		decode.Disassemble(src)
 		if !bytes.Equal(keep, listing) {
 			return harness.Violatef("c11/listing-changes-later", "the listing returned by Disassemble changed after later Disassemble calls")
+		}
+		// ... nor does another goroutine that is disassembling something else meanwhile (a tool that
+		// lists the files of a directory in parallel) change what this call returns
+		if c.Concurrent {
+			stop, done := make(chan struct{}), make(chan struct{})
+			go func() {
+				defer close(done)
+				for {
+					select {
+					case <-stop:
+						return
+					default:
+						decode.Disassemble(other)
+					}
+				}
+			}()
+			var bad []byte
+			for i := 0; i < 6 && bad == nil; i++ {
+				if l2, err := decode.Disassemble(src); err != nil || !bytes.Equal(l2, keep) {
+					bad = l2
+				}
+			}
+			close(stop)
+			<-done
+			if bad != nil {
+				return harness.Violatef("c11/listing-differs-beside-another", "Disassemble returns another listing (%d bytes instead of %d) while another goroutine disassembles another graphic", len(bad), len(keep))
+			}
 		}
 	}
 	lines, err := parseLines(listing)
@@ -549,8 +578,8 @@ func TestCorpus(t *testing.T) {
 	}
 	lo, hi := harness.Range(uint64(len(files)))
 	for _, f := range files[lo:hi] {
-		c := Case{Bytes: f.Data}
-		subListing.See(c, true, harness.Hash(f.Data), "corpus")
+		c := Case{Bytes: f.Data, Concurrent: true}
+		subListing.See(c, true, harness.Hash(f.Data), "corpus", "beside-another-goroutine's-Disassemble")
 		if err := subListing.Eval(c); err != nil {
 			t.Fatalf("%s: %v", f.Name, err)
 		}
@@ -562,6 +591,10 @@ func TestGeneratedStreams(t *testing.T) {
 		b, want, open := gen.Stream(t, gen.StreamCfg{AllowOpen: true, MaxRun: 40})
 		c := Case{Bytes: b}
 		labels := []string{"accepted"}
+		if rapid.IntRange(0, 7).Draw(t, "concurrent") == 0 {
+			c.Concurrent = true
+			labels = append(labels, "beside-another-goroutine's-Disassemble")
+		}
 		if open {
 			labels = append(labels, "ends-in-drawing-mode")
 		}
